@@ -162,7 +162,7 @@ fn subsets(max: usize) -> Vec<Set> {
 
 pub fn run(tier: Tier, seed: u64) -> i32 {
     let stats = Stats::new(PROP, tier, seed);
-    let sets = subsets(tier.pick(2, 3));
+    let sets = subsets(tier.pick(2, 4));
     // (observed, facts) -> (observation, history that produced it)
     let groups: Mutex<HashMap<(usize, String), (String, serde_json::Value)>> = Mutex::new(HashMap::new());
     let record = |obs: usize, f: String, o: String, hist: serde_json::Value| {
@@ -282,14 +282,14 @@ pub fn run(tier: Tier, seed: u64) -> i32 {
     let groups_n = g.len();
     stats.set("groups", json!(groups_n));
     stats.set("distinct_results_of_observed_file_0", json!(distinct_o1.len()));
-    stats.space(json!({"space": "observed file x set of other files x single-file perturbation", "observed_files": OBSERVED.len(), "pool": POOL.iter().map(|p| p.0).collect::<Vec<_>>(), "sets_up_to": tier.pick(2, 3), "base_projects": bases.len()}));
+    stats.space(json!({"space": "observed file x set of other files x single-file perturbation", "observed_files": OBSERVED.len(), "pool": POOL.iter().map(|p| p.0).collect::<Vec<_>>(), "sets_up_to": tier.pick(2, 4), "base_projects": bases.len()}));
     stats.sample(json!({"observed": OBSERVED[0].0, "base": [POOL[2].1, POOL[6].1], "perturbation": "swap b-par-1 -> b-par-2 (same key, same kind, other body)"}));
     stats.sample(json!({"observed": OBSERVED[1].0, "base": [POOL[2].1], "perturbation": "swap b-par-1 -> b-enum-1 (negative control: the kind changes)"}));
     let ok_vac = distinct_o1.len() >= 3;
     drop(g);
     finish(
         &stats,
-        "4 observed files (interface using p.B as `in` argument, q.C / zz.Other as return types, an unused import and an unimported same-package name; parcelable with B in containers; a file without a tree; a file without imports) x every set of <= 2 (thorough 3) files from a pool of 18 others (p.B as interface / parcelable / enum x 2 bodies, q.C x 2 bodies, unrelated files, same-package items named like the observed file's unimported / imported types, a malformed file, a file importing the observed item) x every single-file perturbation (add / drop / swap / replace in place under the same id) applied to the live, already validated parser; all observations of one observed file with equal import facts (registered?, kind per import) must be equal; states = projects and perturbed projects validated, distinct_nontrivial = distinct base projects",
+        "4 observed files (interface using p.B as `in` argument, q.C / zz.Other as return types, an unused import and an unimported same-package name; parcelable with B in containers; a file without a tree; a file without imports) x every set of <= 2 (thorough 4) files from a pool of 18 others (p.B as interface / parcelable / enum x 2 bodies, q.C x 2 bodies, unrelated files, same-package items named like the observed file's unimported / imported types, a malformed file, a file importing the observed item) x every single-file perturbation (add / drop / swap / replace in place under the same id) applied to the live, already validated parser; all observations of one observed file with equal import facts (registered?, kind per import) must be equal; states = projects and perturbed projects validated, distinct_nontrivial = distinct base projects",
         &[
             "the oracle is differential (no hand-written expectation): result is a function of (observed text, import facts)",
             "projects registering one key with two kinds are excluded (C11's business)",
